@@ -90,3 +90,221 @@ Example C20_copy_needed_get_mem :
   outputs (flip PGetMem) cfg_plain [OPut [1]%N [10; 11]%N; OGet [1]%N; CScribble 0 0 [9; 9]%N; OGet [1]%N]
   <> spec_outputs [OPut [1]%N [10; 11]%N; OGet [1]%N; CScribble 0 0 [9; 9]%N; OGet [1]%N].
 Proof. exact copy_needed_get_mem. Qed.
+
+(* ============================================================================================================
+   Second pass (C20x): the paths the first pass left out.  Models: Alias/MergeModel.v (the callers' memory laid over
+   the C10 transition system of the write-merge protocol), Alias/XModel.v (iterators in both directions, Snapshot and
+   Transaction reads, reads in two phases, block buffers between util.BufferPool of Base/UBuffer.v, the block cache
+   with handles, the iterators' children and the reading calls), Alias/ApiModes.v (promised / delivered per method).
+   Outside: the Go scheduler (one action of one goroutine at a time; the write-merge protocol with any number of
+   writers and reads in flight are interleavings of such actions), the garbage collector, reallocation by append.
+   ============================================================================================================ *)
+From GL Require Conc.WriteMerge Conc.WriteMergeProofs.
+From GL Require Import Alias.MergeModel Alias.MergeProofs.
+From GL Require Import Alias.XModel Alias.XPoolProofs Alias.XInvProofs Alias.XIterProofs Alias.ApiModes Alias.ApiProofs.
+
+(* ---- (a) the write-merge path ---- *)
+
+(* 5. A caller's memory (its Batch, or the key/value slices of Put/Delete wrapped in writeMerge{...}) is read — by its
+      own goroutine or by the leader it was merged into — only while its call is in progress: for every reachable
+      state of the protocol with any number of writers and every enabled action. *)
+Theorem C20_merge_reads_only_during_call : forall mp n s a s' i,
+  WriteMergeProofs.reachable mp n s -> WriteMerge.step mp s a = Some s' -> In i (mreads s a) -> in_call (wpc_of s i) = true.
+Proof. exact reads_in_call. Qed.
+Print Assumptions C20_merge_reads_only_during_call.
+
+(* ... in particular never after its acknowledgement has been SENT (the rendezvous on db.writeAckC), whatever happens
+   afterwards (tr: any continuation), ... *)
+Theorem C20_merge_no_read_after_ack : forall mp n s0 l i s1 tr s2 a s3,
+  WriteMergeProofs.reachable mp n s0 -> WriteMerge.step mp s0 (WriteMerge.AAck l i) = Some s1 ->
+  WriteMerge.run mp s1 tr = Some s2 -> WriteMerge.step mp s2 a = Some s3 -> ~ In i (mreads s2 a).
+Proof. exact no_read_after_ack. Qed.
+Print Assumptions C20_merge_no_read_after_ack.
+
+(* ... nor, for a leader, after its call returned. *)
+Theorem C20_merge_no_read_after_return : forall mp n s0 i s1 tr s2 a s3,
+  WriteMergeProofs.reachable mp n s0 -> WriteMerge.step mp s0 (WriteMerge.AReturn i) = Some s1 ->
+  WriteMerge.run mp s1 tr = Some s2 -> WriteMerge.step mp s2 a = Some s3 -> ~ In i (mreads s2 a).
+Proof. exact no_read_after_return. Qed.
+Print Assumptions C20_merge_no_read_after_return.
+
+(* 6. Hence, with the clients overwriting their memory at will once their calls returned, every copy the DB made —
+      journal record, write buffer, the pooled batch of Put/Delete — holds what its caller passed. *)
+Theorem C20_merge_copies_are_the_arguments : forall mp n s,
+  mreachable mp code_variant n s -> copies_are_args s.
+Proof. exact copies_are_args_inv. Qed.
+Print Assumptions C20_merge_copies_are_the_arguments.
+
+(* 7. The db.batchPool-ed Batch a leader uses for Put/Delete (its own record and the merged ones) is in the pool or
+      belongs to one writeLocked frame. *)
+Theorem C20_merge_pooled_batch_single_owner : forall mp n s,
+  mreachable mp code_variant n s -> pooled_batches_single_owner s.
+Proof. exact pooled_single_owner. Qed.
+Print Assumptions C20_merge_pooled_batch_single_owner.
+
+(* 8. The realistic re-orderings are refuted: merged writers acknowledged before putMem (mutation M6), and a leader
+      that copies the merged batches into its journal record only after the acknowledgements. *)
+Theorem C20_merge_ack_before_putmem_refuted :
+  exists n tr s, mrun mp_code m6_variant (minit n) tr = Some s /\ ~ copies_are_args s.
+Proof. exact ack_before_putmem_refuted. Qed.
+Print Assumptions C20_merge_ack_before_putmem_refuted.
+
+Theorem C20_merge_lazy_journal_refuted :
+  exists n tr s, mrun mp_code lazy_journal_variant (minit n) tr = Some s /\ ~ copies_are_args s.
+Proof. exact lazy_journal_refuted. Qed.
+Print Assumptions C20_merge_lazy_journal_refuted.
+
+(* Non-vacuity: in the run used for the refutations the code does read the merged writer's batch while that writer
+   waits for its acknowledgement, and both copies hold its argument although it scribbled after its return; for
+   Put/Delete callers the walks read no caller memory at all and the pooled batch returns to the pool. *)
+Example C20_merge_nonvacuous :
+  logs_of code_variant m6_trace = Some ([(0%nat, [1%N]); (1%nat, [2%N])], [(0%nat, [1%N]); (1%nat, [2%N])], [[1%N]; [2%N]])
+  /\ match mrun mp_code code_variant (minit 2) (firstn 9 m6_trace) with
+     | Some s => mreads (mb s) (WriteMerge.AJournalOk 0) = [0%nat; 1%nat] /\ wpc_of (mb s) 1 = WriteMerge.WWaitAck
+     | None => False
+     end.
+Proof. split; [exact m6_trace_code|exact m6_trace_reads]. Qed.
+
+Example C20_merge_put_nonvacuous :
+  match mrun mp_code code_variant (minit 2) put_trace with
+  | Some s => mjournal s = [(0%nat, [1%N]); (1%nat, [2%N])] /\ mmem s = [(0%nat, [1%N]); (1%nat, [2%N])] /\ mpool s = [0%nat] /\ mheld s = [None; None]
+  | None => False
+  end
+  /\ match mrun mp_code code_variant (minit 2) (firstn 9 put_trace) with
+     | Some s => mreads (mb s) (WriteMerge.AJournalOk 0) = [] /\ mheld s = [Some 0%nat; None] /\ mpb s = [[(0%nat, [1%N]); (1%nat, [2%N])]]
+     | None => False
+     end.
+Proof. exact put_trace_code. Qed.
+
+(* ---- (d) pooled buffers ---- *)
+
+(* 9. C20_pool_single_owner: in every reachable state of the extended model — every program of puts, reads in two
+      phases through DB / Snapshot / Transaction, iterators moved in both directions, flushes, evictions, the pool
+      forgetting slices, table writers, client scribbles; every configuration; every choice sync.Pool makes — a block
+      buffer has exactly one owner among {the buffer pool, a cache node, an iterator's child, a reading call}, and
+      whoever reads a cached block through a handle reads a block the cache still has.  (The cache's own reference
+      counting is property C17; the model takes "a handle is left" from the holders' records.) *)
+Theorem C20_pool_single_owner : forall c pbase p, single_owner (xfinal xfixed c pbase p).
+Proof. intros c pbase p. exact (XInv_single_owner c _ (XInv_final c pbase p)). Qed.
+Print Assumptions C20_pool_single_owner.
+
+(* ... and it is preserved by every single step, from any state that satisfies the invariant. *)
+Theorem C20_pool_single_owner_step : forall md c s o, get_modes_fixed md -> XInv c s ->
+  XInv c (fst (xstep md c s o)) /\ single_owner (fst (xstep md c s o)).
+Proof. intros md c s o Mg X. pose proof (XInv_step md c s o Mg X) as X1. split; [exact X1|exact (XInv_single_owner c _ X1)]. Qed.
+Print Assumptions C20_pool_single_owner_step.
+
+(* 10. Separation for the extended model: what the client may write is client-owned; pooled, cached and privately held
+       block buffers and the iterators' buffers are not. *)
+Theorem C20_x_separation : forall c pbase p, xseparated (xfinal xfixed c pbase p).
+Proof. intros c pbase p. exact (XInv_separated c _ (XInv_final c pbase p)). Qed.
+Print Assumptions C20_x_separation.
+
+(* 11. What breaks it: a second Put of the same slice (defect 239f7b9, table.Writer.Close run twice): nothing in the
+       pool notices, the census has a duplicate and two Gets hand the same array out. *)
+Theorem C20_pool_double_put_refuted :
+  let c := cfg_pool_only in
+  let b0 := xbm (xinit 16) in
+  let '(b1, l) := bpool_get c b0 8 None in
+  let b2 := bpool_put c (bpool_put c b1 l) l in
+  let '(b3, l1) := bpool_get c b2 5 (Some 0%nat) in
+  let '(b4, l2) := bpool_get c b3 5 (Some 0%nat) in
+  BInv b1 /\ ~ NoDup (pool_ids (bpl b2)) /\ ~ BInv b2 /\ UBuffer.bp_count (bpl b2) l = 2%nat /\ l1 = l /\ l2 = l.
+Proof. exact pool_double_put_breaks_single_owner. Qed.
+Print Assumptions C20_pool_double_put_refuted.
+
+(* ---- (b) iterators in both directions ---- *)
+
+(* 12. C20_iterator_buffers_stable for ALL movement sequences: however iterator i got where it is (First, Last, Seek,
+       Next, Prev in any order and direction, of a DB, Snapshot or Transaction iterator), what Key()/Value() expose is
+       unchanged by any operations that neither move nor release it. *)
+Theorem C20_iterator_buffers_stable_all_moves : forall c pbase pre mid i,
+  (forall o, In o mid -> xmoves i o = false) ->
+  get_iter (xfinal xfixed c pbase pre) i <> None ->
+  xiter_read (xfinal xfixed c pbase (pre ++ mid)) i = xiter_read (xfinal xfixed c pbase pre) i.
+Proof. intros c pbase pre mid i. exact (iterator_stable_all_moves xfixed c pbase pre mid i xfixed_get_modes xfixed_iter_copy). Qed.
+Print Assumptions C20_iterator_buffers_stable_all_moves.
+
+(* 13. C20_iterator_release_returns_buffers: Release is not a seeks method.  The code drops the iterator's two
+       buffers for the garbage collector and never pools them: the slices the caller kept keep their contents for
+       ever, and their array is never among the buffers of the pool, the cache or any holder — only the block buffers
+       of the children, of which the caller never had a slice, go back. *)
+Theorem C20_iterator_release_returns_buffers : forall c pbase pre post i it,
+  get_iter (xfinal xfixed c pbase pre) i = Some it ->
+  let s0 := xfinal xfixed c pbase pre in
+  let s1 := xfinal xfixed c pbase (pre ++ XIterRelease i :: post) in
+  (exists it', get_iter s1 i = Some it' /\ xi_live it' = false /\ xi_exk it' = xi_exk it /\ xi_exv it' = xi_exv it) /\
+  deref (xhp s1) (xi_exk it) = deref (xhp s0) (xi_exk it) /\ deref (xhp s1) (xi_exv it) = deref (xhp s0) (xi_exv it) /\
+  ~ In (rloc (xi_exk it)) (census s1) /\ ~ In (rloc (xi_exv it)) (census s1).
+Proof. intros c pbase pre post i it. exact (iterator_release_keeps_slices xfixed c pbase pre post i it xfixed_get_modes xfixed_iter_copy). Qed.
+Print Assumptions C20_iterator_release_returns_buffers.
+
+(* 14. The mutants: dbIter.prev without the copy of the value (the merged iterator rests on the entry before, its
+       block may be gone), and the same at Release (the exposed block buffer goes to the pool and the next read
+       overwrites the caller's slice). *)
+Theorem C20_prev_value_slice_refuted :
+  exists md c pbase pre mid i, get_modes_fixed md /\ (forall o, In o mid -> xmoves i o = false) /\
+    get_iter (xfinal md c pbase pre) i <> None /\
+    xiter_read (xfinal md c pbase (pre ++ mid)) i <> xiter_read (xfinal md c pbase pre) i.
+Proof. exact prev_value_slice_refuted. Qed.
+Print Assumptions C20_prev_value_slice_refuted.
+
+Theorem C20_release_pools_exposed_buffer_refuted :
+  exists md c pbase pre post i it, get_modes_fixed md /\ get_iter (xfinal md c pbase pre) i = Some it /\
+    In (rloc (xi_exv it)) (census (xfinal md c pbase (pre ++ [XIterRelease i]))) /\
+    deref (xhp (xfinal md c pbase (pre ++ XIterRelease i :: post))) (xi_exv it) <> deref (xhp (xfinal md c pbase pre)) (xi_exv it).
+Proof. exact release_pools_exposed_buffer_refuted. Qed.
+Print Assumptions C20_release_pools_exposed_buffer_refuted.
+
+Example C20_iterator_nonvacuous :
+  let pre := [XPut [1%N] [10%N]; XPut [2%N] [20%N]; XPut [3%N] [30%N]; EXFlush None; XSnapNew; XPut [2%N] [21%N];
+              XIterNew (AccSnap 0); XIterMove 0 MLast [] pk0 [(0%nat, Some 1%nat, pk0)]; XIterMove 0 MPrev [] pk0 [(0%nat, Some 2%nat, pk0)]] in
+  let mid := [XIterNew AccDB; XIterMove 1 (MSeek [2%N]) [] pk0 []; XGetBegin AccDB [3%N] [] pk0; EXFlush (Some 0%nat); EXEvict 0;
+              XIterMove 1 MPrev [] pk0 []; XGetEnd 0; XScribble 0 0 [7%N]; EXTableWrite 8 (Some 0%nat) [5%N; 5%N; 5%N]; XIterRelease 1] in
+  (forall o, In o mid -> xmoves 0 o = false) /\
+  xiter_read (xfinal xfixed cfg_both 16 pre) 0 = Some (XPair (Some ([2%N], [20%N]))) /\
+  xiter_read (xfinal xfixed cfg_both 16 (pre ++ mid)) 0 = Some (XPair (Some ([2%N], [20%N]))) /\
+  xoutputs xfixed cfg_both 16 (pre ++ mid) = [XBool true; XBool true; XBool true; XBool true; XVal (Some [30%N])].
+Proof. exact stable_nonvacuous. Qed.
+
+(* ---- (c) per method: promised and delivered ---- *)
+
+(* 15. For every method, configuration and data location the code delivers at least what the doc comment promises;
+       Snapshot.Get (comment: "should not modify") delivers what DB.Get does ("its own copy"). *)
+Theorem C20_delivered_honours_promised : forall a c p, honours (delivered fixed_modes xfixed a c p) (promised a) = true.
+Proof. exact delivered_honours_promised. Qed.
+Print Assumptions C20_delivered_honours_promised.
+
+Theorem C20_snapshot_get_as_db_get : forall c p,
+  delivered fixed_modes xfixed (ApiGet KSnap) c p = delivered fixed_modes xfixed (ApiGet KDB) c p
+  /\ stronger_than_promised (delivered fixed_modes xfixed (ApiGet KSnap) c p) (promised (ApiGet KSnap)) = true.
+Proof. exact snapshot_get_as_db_get. Qed.
+Print Assumptions C20_snapshot_get_as_db_get.
+
+(* 16. Snapshot.Get handing out the write buffer's slice: a client scribble changes what the DB returns and separation
+       fails; with the code's table the same program is scribble-independent.
+       PARTIAL for the extended model: the general statement  outputs (p) = outputs (p without scribbles)  for EVERY
+       program of Alias/XModel.v is not proved here (the first pass proves it for its machine: C20_noninterference);
+       what is proved for every program is separation (10), single ownership (9) and the stability of exposures (12, 13). *)
+Theorem C20_snapshot_get_slice_refuted :
+  xoutputs md_snap_get_slice cfg_both 16 snap_prog <> xoutputs md_snap_get_slice cfg_both 16 (x_no_scribbles snap_prog)
+  /\ ~ xseparated (xfinal md_snap_get_slice cfg_both 16 snap_prog)
+  /\ xoutputs xfixed cfg_both 16 snap_prog = xoutputs xfixed cfg_both 16 (x_no_scribbles snap_prog).
+Proof. exact snapshot_get_slice_refuted. Qed.
+Print Assumptions C20_snapshot_get_slice_refuted.
+
+(* 17. C20_x_scribbles_do_not_matter_partial.  The full statement for the extended machine would be
+         forall c pbase p, xoutputs xfixed c pbase p = xoutputs xfixed c pbase (x_no_scribbles p).
+       Proved here is its write side, for every program: a client scribble changes client-owned cells only (no arena, no
+       cached, pooled or held block buffer, no iterator buffer; no record).  Missing: the read side as a theorem (that no
+       step reads a client-owned cell other than through the arguments it is given) — it is what separation (10),
+       single ownership (9) and exposure stability (12, 13) are the ingredients of, and what the refutation (16) shows to
+       fail for the mutant. *)
+Theorem C20_x_scribbles_do_not_matter_partial : forall c pbase p i pos g,
+  let s := xfinal xfixed c pbase p in
+  let s' := xscribble s i pos g in
+  (forall l, hown (xhp s) l <> Some Client -> hget (xhp s') l = hget (xhp s) l) /\
+  (forall l, hown (xhp s') l = hown (xhp s) l) /\
+  xset_hp s' (xhp s) = s.
+Proof. exact scribble_hits_client_memory_only. Qed.
+Print Assumptions C20_x_scribbles_do_not_matter_partial.
